@@ -133,48 +133,53 @@ Inductive act :=
 | ARead (k : nat) (d : list N)
 | ACreateS | ACreateR.
 
-Inductive vstep : sys -> act -> sys -> Prop :=
-| VQuiet y y' : quiet y y' -> vstep y AQuiet y'
+(* [b] = whether frames may leave the wire unprocessed (a connection reset): only [VDrop] needs it *)
+Inductive vstep (b : bool) : sys -> act -> sys -> Prop :=
+| VQuiet y y' : quiet y y' -> vstep b y AQuiet y'
 | VEmit y y' q w pay :
     sview y = Some (q, w, false) -> sview y' = Some (q + 1, w, false) ->
     Permutation (inflight y') (mkW sid q w pay :: inflight y) -> rview y' = rview y ->
-    vstep y (AEmit (mkW sid q w pay)) y'
+    vstep b y (AEmit (mkW sid q w pay)) y'
 | VCloseEmit y y' q w :
     sview y = Some (q, w, false) -> sview y' = Some (q + 1, 1, true) ->
     Permutation (inflight y') (mkW sid q 1 [] :: inflight y) -> rclose (rview y) (rview y') ->
-    vstep y (ACloseEmit (mkW sid q 1 [])) y'
+    vstep b y (ACloseEmit (mkW sid q 1 [])) y'
 | VLost y y' q w w' :
     sview y = Some (q, w, false) -> sview y' = Some (q + 1, w', true) ->
     Permutation (inflight y) (inflight y') -> rclose (rview y) (rview y') ->
-    vstep y ALost y'
+    vstep b y ALost y'
 | VDrop y y' l :
-    Permutation (inflight y) (l ++ inflight y') -> sview y' = sview y -> rview y' = rview y ->
-    vstep y (ADrop l) y'
+    b = true -> Permutation (inflight y) (l ++ inflight y') -> sview y' = sview y -> rview y' = rview y ->
+    vstep b y (ADrop l) y'
 | VArrive y y' fr rb c :
     rview y = Some (rb, c) -> rview y' = Some (fst (fst (rb_write rb (to_frame fr))), c) ->
     inflight y' = inflight y -> sview y' = sview y ->
-    vstep y (AArrive fr) y'
+    vstep b y (AArrive fr) y'
 | VRead y y' rb c k d rb' :
     rview y = Some (rb, c) -> rb_read rb k = (rb', RdData d) -> rview y' = Some (rb', c) ->
     inflight y' = inflight y -> sview y' = sview y ->
-    vstep y (ARead k d) y'
+    vstep b y (ARead k d) y'
 | VCreateS y y' :
     sview y = None -> sview y' = Some (0, 0, false) -> inflight y' = inflight y -> rview y' = rview y ->
-    vstep y ACreateS y'
+    vstep b y ACreateS y'
 | VCreateR y y' :
     rview y = None -> rview y' = Some (rb_init 0, false) -> inflight y' = inflight y -> sview y' = sview y ->
-    vstep y ACreateR y'.
+    vstep b y ACreateR y'.
 
-Inductive vsteps : sys -> list act -> sys -> Prop :=
-| VS_nil y : vsteps y [] y
-| VS_cons y a y1 l y2 : vstep y a y1 -> vsteps y1 l y2 -> vsteps y (a :: l) y2.
+Inductive vsteps (b : bool) : sys -> list act -> sys -> Prop :=
+| VS_nil y : vsteps b y [] y
+| VS_cons y a y1 l y2 : vstep b y a y1 -> vsteps b y1 l y2 -> vsteps b y (a :: l) y2.
 
-Lemma vsteps_app y l1 y1 l2 y2 : vsteps y l1 y1 -> vsteps y1 l2 y2 -> vsteps y (l1 ++ l2) y2.
+Lemma vsteps_app b y l1 y1 l2 y2 : vsteps b y l1 y1 -> vsteps b y1 l2 y2 -> vsteps b y (l1 ++ l2) y2.
 Proof. induction 1; cbn; [auto|]. intros H2. econstructor; eauto. Qed.
-Lemma vsteps_one y a y' : vstep y a y' -> vsteps y [a] y'.
+Lemma vsteps_one b y a y' : vstep b y a y' -> vsteps b y [a] y'.
 Proof. intros H. econstructor; [exact H|constructor]. Qed.
-Lemma vsteps_quiet y y' : quiet y y' -> vsteps y [AQuiet] y'.
+Lemma vsteps_quiet b y y' : quiet y y' -> vsteps b y [AQuiet] y'.
 Proof. intros H. apply vsteps_one. now constructor. Qed.
+Lemma vstep_weaken b y a y' : vstep false y a y' -> vstep b y a y'.
+Proof. intros H. destruct H; try (econstructor; eassumption). discriminate. Qed.
+Lemma vsteps_weaken b y l y' : vsteps false y l y' -> vsteps b y l y'.
+Proof. induction 1; econstructor; eauto using vstep_weaken. Qed.
 
 (* what the actions put on the wire / returned to the reader *)
 Definition emitted (l : list act) : list wframe :=
